@@ -67,6 +67,7 @@ func TODO() Context { return bg{} }
 
 func WithCancel(parent Context) (Context, CancelFunc) {
 	c := &cctx{done: rt.MakeChan[struct{}](0)}
+	rt.MarkDone(c.done)
 	if p, ok := parent.(*cctx); ok {
 		if p.started {
 			c.cancel()
